@@ -37,8 +37,42 @@ fn report(c: &Case) -> CaseReport {
     history_report(c, oracles(), nontrivial)
 }
 
+/// Sub-strategies that reach the rarer table changes: many entries (second and third
+/// directory sector also in V4, several MiniFAT sectors) and one stream big enough for a
+/// DIFAT sector in V3 (> 109 FAT sectors).
+fn table_growth_case(tier: Tier) -> BoxedStrategy<Case> {
+    use crate::gen::*;
+    use proptest::collection::vec;
+    let step = prop_oneof![
+        10 => (new_path(0), data_strategy(700)).prop_map(|(p, data)| Op::CreateStream { p, data }),
+        2 => new_path(0).prop_map(|p| Op::CreateStorage { p }),
+        2 => pick_path(PickKind::Stream, 0).prop_map(|p| Op::RemoveStream { p }),
+        1 => (pick_path(PickKind::Stream, 0), len_spec(9000)).prop_map(|(p, len)| Op::SetLen { p, len }),
+        1 => (new_path(0), 60_000u32..140_000, any::<u8>()).prop_map(|(p, len, seed)| Op::CreateStream { p, data: DataSpec { len, seed } }),
+    ];
+    let big = prop_oneof![8 => Just(None), 1 => (7_150_000u32..7_300_000).prop_map(Some)];
+    let n = if tier == Tier::Thorough { 120 } else { 70 };
+    (proptest::sample::select(vec![3u8, 4, 4]), vec(step, 30..=n), big)
+        .prop_map(|(version, mut ops, big)| {
+            if let Some(len) = big {
+                // DIFAT sector in V3: keep the history short, every boundary reopens 7 MB twice
+                ops.truncate(6);
+                ops.insert(2, Op::CreateStream { p: PathSpec::Raw("/huge".into()), data: DataSpec { len, seed: 3 } });
+                ops.push(Op::SetLen { p: PathSpec::Raw("/huge".into()), len: LenSpec::Rel(70_000) });
+                return Case { version: 3, max_buf: None, start: Start::Fresh, pool: (0..60).map(|i| format!("e{:02}", i)).collect(), ops };
+            }
+            Case { version, max_buf: None, start: Start::Fresh, pool: (0..60).map(|i| format!("e{:02}", i)).collect(), ops }
+        })
+        .boxed()
+}
+
 fn worker(ctx: &Ctx) -> WorkerResult {
-    run_worker(ctx, case_strategy(&profile(ctx.tier), crate::synth::AVAILABLE), report)
+    let strat = prop_oneof![
+        10 => case_strategy(&profile(ctx.tier), crate::synth::AVAILABLE),
+        1 => table_growth_case(ctx.tier),
+    ]
+    .boxed();
+    run_worker(ctx, strat, report)
 }
 
 fn solo(v: &Value) -> Result<CaseReport, String> {
